@@ -345,13 +345,10 @@ impl<'a> ExprAST<'a> {
     }
 
     fn postfix_expr(&self, lhs: &ExprAST, op: &str) -> String {
-        // a postfix operator applies to one primary: anything else (and a prefix expression whose
-        // operand is not itself a postfix expression) has to be parenthesised
+        // a postfix operator applies to a primary (possibly already followed by postfix operators): a prefix,
+        // infix or conditional expression has to be parenthesised
         let need = match lhs {
-            ExprAST::Postfix(..) | ExprAST::Ternary(..) => true,
-            ExprAST::Unary(_, operand) => {
-                lhs.infix_like().is_some() || !matches!(operand.as_ref(), ExprAST::Postfix(..))
-            }
+            ExprAST::Ternary(..) | ExprAST::Unary(..) => true,
             _ => lhs.infix_like().is_some(),
         };
         lhs.paren_expr(need) + " " + op
@@ -568,12 +565,14 @@ impl<'a> Parser<'a> {
     }
 
     fn parse_primary_inner(&mut self) -> Result<ExprAST<'a>> {
-        let lhs = self.parse_token()?;
-        if self.tokenizer.cur_token.is_postfix_op_token() {
+        let mut lhs = self.parse_token()?;
+        // a postfix operator applies to the primary on its left (never to a prefix expression: the prefix
+        // operator's operand is parsed here too, so it takes the postfix operators first); several may follow
+        while self.tokenizer.cur_token.is_postfix_op_token() {
             let op = self.tokenizer.cur_token.string();
             self.next()?;
             self.built(self.height)?;
-            return Ok(ExprAST::Postfix(Box::new(lhs), op.to_string()));
+            lhs = ExprAST::Postfix(Box::new(lhs), op.to_string());
         }
         Ok(lhs)
     }
